@@ -17,11 +17,15 @@ def instances(tier):
                   ("OVER", "a8r8g8b8", "0x8000", "inside"), ("CLEAR", "a8r8g8b8", "0x8000", "right-bottom-out"), ("SRC", "r5g6b5", "0xffff", "inside"), ("SRC", "a1", "0xffff", "inside"),
                   ("ADD", "a8", "0x8000", "whole"), ("SRC", "x8b8g8r8", "0x8000", "outside"), ("SRC", "b8g8r8a8", "0x8000", "inside"), ("SRC", "a4", "0x8000", "left-top-out")]
     else:
-        for op in OPS:
-            for fmt in ("a8r8g8b8", "x8r8g8b8", "a8b8g8r8", "b8g8r8a8", "r8g8b8x8", "r5g6b5", "b5g6r5", "a8", "a1", "a4", "r3g3b2", "a1r5g5b5"):
+        combos = [("SRC", "a8r8g8b8", "0xffff", "right-bottom-out"), ("SRC", "a8", "0x8000", "left-top-out"), ("OVER", "a8r8g8b8", "0xffff", "column"),
+                  ("OVER", "a8r8g8b8", "0x8000", "inside"), ("CLEAR", "a8r8g8b8", "0x8000", "right-bottom-out"), ("SRC", "r5g6b5", "0xffff", "inside"),
+                  ("SRC", "a1", "0xffff", "inside"), ("ADD", "a8", "0x8000", "whole"), ("SRC", "x8b8g8r8", "0x8000", "outside"),
+                  ("SRC", "b8g8r8a8", "0x8000", "inside"), ("SRC", "a4", "0x8000", "left-top-out")]
+        for op in ("SRC", "OVER", "XOR", "IN_REVERSE"):
+            for fmt in ("a8r8g8b8", "x8b8g8r8", "b8g8r8a8", "a8", "a1", "a4"):
                 for al in ("0xffff", "0x8000", "0"):
-                    for bx in ("right-bottom-out", "left-top-out", "inside"):
-                        if (hash((op, fmt, al, bx)) % 4) == 0 or op in ("SRC", "OVER"):
+                    for bx in ("right-bottom-out", "left-top-out", "empty"):
+                        if (len(op) * 7 + len(fmt) * 3 + int(al, 16) + len(bx)) % 3 == 0 and (op, fmt, al, bx) not in combos:
                             combos.append((op, fmt, al, bx))
     combos = [c + (None,) for c in combos]
     # destination clip reaching beyond the image; near-opaque colour on a wide destination
